@@ -4,6 +4,8 @@ import (
 	"fmt"
 	"go/token"
 	"go/types"
+	"golang.org/x/tools/go/callgraph/cha"
+	"golang.org/x/tools/go/callgraph/vta"
 	"os"
 	"path/filepath"
 	"sort"
@@ -41,7 +43,8 @@ type Prog struct {
 	roots            map[*ssa.Function]bool // activity roots (connection loop, frame executor, dispatcher, client call)
 	rootsAreExits    bool
 	loopRoots        map[*ssa.Function]bool
-	boundary         map[ssa.Instruction]bool // in the event loops: the instruction that takes the next event
+	dynIn            map[*ssa.Function][]ssa.CallInstruction // VTA call graph: dynamic and static call sites per callee
+	boundary         map[ssa.Instruction]bool                // in the event loops: the instruction that takes the next event
 }
 
 func allFunctions(prog *ssa.Program) map[*ssa.Function]bool { return ssautil.AllFunctions(prog) }
@@ -308,4 +311,25 @@ func calleeName(ci ssa.CallInstruction) string {
 		return "builtin." + b.Name()
 	}
 	return ""
+}
+
+// dynCallers: call sites (static and dynamic: through function values, bound methods and
+// interfaces) that may invoke fn, from a VTA call graph over the whole program.
+func (p *Prog) dynCallers(fn *ssa.Function) []ssa.CallInstruction {
+	if p.dynIn == nil {
+		p.dynIn = map[*ssa.Function][]ssa.CallInstruction{}
+		all := ssautil.AllFunctions(p.SSA)
+		g := vta.CallGraph(all, cha.CallGraph(p.SSA))
+		for f, n := range g.Nodes {
+			if f == nil || n == nil {
+				continue
+			}
+			for _, e := range n.In {
+				if e.Site != nil && e.Caller != nil && e.Caller.Func != nil {
+					p.dynIn[f] = append(p.dynIn[f], e.Site)
+				}
+			}
+		}
+	}
+	return p.dynIn[fn]
 }
